@@ -299,10 +299,10 @@ func (c *Ctx) ruleObjectRules(rule string) {
 // property being set, or by no required_if_not property being set; in the set evaluator by a conflicting property being set.
 func (c *Ctx) checkRuleRejects(rule string) {
 	for _, spec := range []struct {
-		fn     string
-		getter string
+		fn      string
+		getter  string
 		wantSet bool
-		desc   string
+		desc    string
 	}{
 		{"schema.ObjectSchema.validatePropertyInterdependenciesIfUnset", "RequiredIf", true, "required_if rejects when a listed property is set"},
 		{"schema.ObjectSchema.validatePropertyInterdependenciesIfSet", "Conflicts", true, "conflicts rejects when a listed property is set"},
